@@ -363,14 +363,14 @@ func (r *rig) probeOnce(tok string) outcome {
 		if err != nil {
 			return outcome{Status: -2}
 		}
-		defer c.Close()
+		defer closeConn(c.C, true)
 		return h1Once(c, &ReqPlan{Tok: tok}, clientWait)
 	case "tcp":
 		c, err := net.DialTimeout("tcp", r.c.Addr, 3*time.Second)
 		if err != nil {
 			return outcome{Status: -2}
 		}
-		defer c.Close()
+		defer closeConn(c, true)
 		_ = c.SetDeadline(time.Now().Add(clientWait))
 		msg := []byte(tok + "\n")
 		if _, err := c.Write(msg); err != nil {
@@ -391,7 +391,7 @@ func (r *rig) probeOnce(tok string) outcome {
 		if err != nil {
 			return outcome{Status: -2}
 		}
-		defer x.Close()
+		defer func() { closeConn(x.C, true); x.Close() }()
 		if err := x.Send(mesh.XRequest("bolt", 1, tok, []byte(tok), 0)); err != nil {
 			return outcome{Status: -1, Closed: true}
 		}
@@ -473,7 +473,7 @@ func (br *batchRun) closeKept() {
 	}
 	br.mu.Lock()
 	for _, c := range br.kept {
-		_ = c.Close()
+		closeConn(c, true)
 	}
 	br.kept = nil
 	br.mu.Unlock()
@@ -521,8 +521,10 @@ func (r *rig) execConns(conns []ConnPlan) *batchRun {
 func runBatch(t ev.TB, part string, b *Batch) (classes []string, nontrivial bool, concluded bool) {
 	desc := b.json
 	r, err := newRig(t, part, b.Setup)
-	if err != nil {
-		t.Fatalf("rig: %v", err)
+	if err != nil { // no ports / listener did not come up: infrastructure
+		markInconclusive(part)
+		t.Logf("rig: %v", err)
+		return
 	}
 	defer r.close()
 	for i := range b.Conns {
